@@ -24,7 +24,7 @@ def main():
     names = sorted(os.path.basename(os.path.dirname(f)) for f in glob.glob(f"/verif/seeded/{prefix}*/meta.json"))
     names = [n for i, n in enumerate(names) if i % of == stream]
     res = {}
-    outp = f"/verif/sensitivity/seeded_recheck.{stream}.json"
+    outp = f"/verif/sensitivity/seeded_recheck.{stream}{'' if prefix == 'agent' else '.' + prefix}.json"
     try:
         for n in names:
             m = json.load(open(f"/verif/seeded/{n}/meta.json"))
